@@ -7,6 +7,7 @@ import (
 	"os"
 	"runtime"
 	"runtime/debug"
+	"strconv"
 	"strings"
 	"sync/atomic"
 	"syscall"
@@ -16,6 +17,30 @@ import (
 // ExitCPULimit is the exit status of a worker whose current case burnt its
 // whole CPU allowance (a busy loop: the case does not terminate).
 const ExitCPULimit = 97
+
+// ExitMemLimit is the exit status of a worker whose resident memory grew
+// beyond its allowance while a case was running.
+const ExitMemLimit = 96
+
+// DefaultMemLimitMB: resident memory one worker may use. The largest
+// legitimate cases stay far below it (the peak is recorded in the evidence as
+// counter peak-worker-rss-mb); 16 workers at the limit still fit the machine.
+const DefaultMemLimitMB = 3072
+
+func residentMB() int64 {
+	b, err := os.ReadFile("/proc/self/statm")
+	if err != nil {
+		return 0
+	}
+	f := strings.Fields(string(b))
+	if len(f) < 2 {
+		return 0
+	}
+	pages, _ := strconv.ParseInt(f[1], 10, 64)
+	return pages * int64(os.Getpagesize()) >> 20
+}
+
+var peakMB int64
 
 func processCPU() time.Duration {
 	var ru syscall.Rusage
@@ -29,10 +54,25 @@ func processCPU() time.Duration {
 // limit of CPU time since it started. The goroutine dump goes to stderr (the
 // batch log) so that the supervisor can name the function that is spinning.
 func cpuWatch(limit time.Duration, caseStart *int64, out string) {
-	for {
-		time.Sleep(250 * time.Millisecond)
+	for tick := 0; ; tick++ {
+		time.Sleep(50 * time.Millisecond)
 		start := time.Duration(atomic.LoadInt64(caseStart))
 		if start < 0 {
+			continue
+		}
+		if mb := residentMB(); mb > atomic.LoadInt64(&peakMB) {
+			atomic.StoreInt64(&peakMB, mb)
+			if mb > DefaultMemLimitMB {
+				buf := make([]byte, 1<<20)
+				n := runtime.Stack(buf, true)
+				fmt.Fprintf(os.Stderr, "\nMEMORY-LIMIT: resident memory %d MB while the case ran (allowance %d MB); goroutines:\n%s\n", mb, DefaultMemLimitMB, buf[:n])
+				if out != "" {
+					os.WriteFile(out+".memlimit", []byte(fmt.Sprint(mb)), 0o644)
+				}
+				os.Exit(ExitMemLimit)
+			}
+		}
+		if tick%5 != 0 {
 			continue
 		}
 		if used := processCPU() - start; used > limit {
@@ -115,6 +155,9 @@ func RunWorker(a WorkerArgs) int {
 		return 0
 	}
 	agg.Distinct = int64(len(agg.hashSet))
+	if mb := atomic.LoadInt64(&peakMB); mb > 0 {
+		agg.Counters["peak-worker-rss-mb"] = mb
+	}
 	hb := make([]byte, 0, 8*len(agg.hashSet))
 	for h := range agg.hashSet {
 		hb = binary.LittleEndian.AppendUint64(hb, h)
